@@ -169,6 +169,15 @@ def main(tier):
     base += [(e,) for e in E[::9]][:15]
     nsingle = len(seqs)
     seqs += [(a, c) for a in base for c in base]
+    # entries added by one load and dropped by the next (the dropped one sorting first or last), also after an unchanged reload in between
+    sub8 = [e for e in E if e[1] in ('info', '>=warning', '*', '<=command') and e[2] in (('A',), ('B',))][:8]
+    for x, y in itertools.combinations(sub8, 2):
+        if key_of(x) == key_of(y):
+            continue
+        two = (x, y)
+        for keep in ((x,), (y,)):
+            seqs.append((two, keep))
+            seqs.append((keep, keep, two, keep))
     npair = len(seqs) - nsingle
     if not quick:
         small = base[:12]
